@@ -142,6 +142,16 @@ def check(arg: tuple[dict[str, Any], dict[str, Any], int]) -> str | None:
     fb(False)
     if state_digest(rr) != dig:
         return 'K-FAC state changed by eval-mode passes'
+    # a training-mode forward pass WITHOUT backward, then eval passes: the eval
+    # passes must still leave all K-FAC state unchanged
+    model.train(True)
+    model.zero_grad(set_to_none=True)
+    trees.run_model(model, inp)
+    dig = state_digest(rr)
+    fb(False)
+    if state_digest(rr) != dig:
+        return ('K-FAC state changed by an eval-mode pass that follows a '
+                'forward-only training pass')
     # a second iteration: still only registered gradients change
     fb(True)
     before = snap(model)
@@ -217,6 +227,14 @@ def check_chain(arg: tuple[str, dict, str, int]) -> str | None:
     fb(False)
     if state_digest(rr) != dig:
         return 'K-FAC state changed by an eval-mode pass'
+    model.train(True)
+    model.zero_grad(set_to_none=True)
+    model(x)                       # forward only, in train mode
+    dig = state_digest(rr)
+    fb(False)
+    if state_digest(rr) != dig:
+        return ('K-FAC state changed by an eval-mode pass that follows a '
+                'forward-only training pass')
     try:
         fb(True)
         pre.step()
